@@ -3,9 +3,9 @@ L1 (`Iggy.Log.Model`, `Part`) refines L2 (`Iggy.Log.Spec`, `SPart`) through `abs
 representation invariant `Part.Inv` (`Iggy.Log.Abs`), for all inputs.  This file collects the main
 theorems under their official names; the proofs are in `Iggy/Log/Lemmas/*.lean`.
 
-Statements that are FALSE of the model as originally planned are kept in comments next to the
-`…_partial` version that is proved, together with a machine-checked counterexample
-(`…_counterexample`), see "reads" below.
+The only statement that is FALSE of the model as planned is the timestamp poll on a log file of 4 GiB or
+more: it is kept in a comment next to the `…_partial` version that is proved, together with a
+machine-checked counterexample (`getByTimestamp_counterexample`).
 -/
 import Iggy.Log.Lemmas.Append
 import Iggy.Log.Lemmas.Persist
@@ -55,56 +55,27 @@ theorem segGetByOffset_refines {s : Seg} (h : s.Inv cfg) (off count : Nat) :
       s.msgs.filter (fun m => max off s.start ≤ m.off ∧ m.off < max off s.start + count) :=
   Seg.getByOffset_eq h off count
 
-/-
-The planned statement
-
-  getByOffset_refines : p.Inv cfg → 0 < count → p.getByOffset off count = (abs p).pollOffset off count
-
-is FALSE of the model once retention has deleted the first segment: for `off` below the first retained
-offset the model computes `hi = min (off + (count-1)) lastSegCur` from the *unclamped* `off` and keeps
-only segments with `start ≤ hi`, so it returns `[]` (or too few messages) where the spec (C14) clamps
-to the first retained message; with the cache on, a stale cache can even return deleted messages.
-See `getByOffset_counterexample` / `getLast_counterexample` below.  What is missing is exactly the
-hypothesis `p.firstStart ≤ off` (the first segment's start offset), or alternatively "the slice reaches
-the end of the log and the cache is not stale".
--/
-theorem getByOffset_refines_partial {off count : Nat} (h : p.Inv cfg) (hc : 0 < count)
-    (hlo : p.firstStart ≤ off) : p.getByOffset off count = (abs p).pollOffset off count :=
-  Part.getByOffset_eq (segReadSpec cfg) h hc hlo
-
-/-- second sufficient condition: the requested slice reaches the end and the cache is not stale -/
-theorem getByOffset_refines_partial' {off count : Nat} (h : p.Inv cfg) (hc : 0 < count)
-    (hlo : p.firstStart ≤ off ∨ (p.next ≤ off + count ∧ ∀ c, p.cache = some c → c <:+ p.msgs)) :
+/-- A poll by offset returns exactly the requested slice of the retained messages, whichever tier
+holds it (cache — stale or not —, accumulator, disk through either index path), across segment
+boundaries; a poll below the earliest retained offset starts at the earliest retained message (C14).
+(The first version of the model, mirroring the server before the fix in /repo, violated this after
+retention: see the regression examples at the end of this file.) -/
+theorem getByOffset_refines {off count : Nat} (h : p.Inv cfg) (hc : 0 < count) :
     p.getByOffset off count = (abs p).pollOffset off count :=
-  Part.getByOffset_eq_gen (segReadSpec cfg) h hc hlo
+  Part.getByOffset_eq (segReadSpec cfg) h hc
 
-/-- full statement `p.Inv cfg → 0 < count → p.getFirst count = (abs p).pollFirst count` is false after
-retention (same reason); missing: `p.firstStart = 0` -/
-theorem getFirst_refines_partial {count : Nat} (h : p.Inv cfg) (hc : 0 < count)
-    (hF : p.firstStart = 0) : p.getFirst count = (abs p).pollFirst count :=
-  Part.getFirst_eq (segReadSpec cfg) h hc hF
+theorem getFirst_refines {count : Nat} (h : p.Inv cfg) (hc : 0 < count) :
+    p.getFirst count = (abs p).pollFirst count :=
+  Part.getFirst_eq (segReadSpec cfg) h hc
 
-/-- full statement `p.Inv cfg → 0 < count → p.getLast count = (abs p).pollLast count` is false with
-a stale cache after retention (`getLast_counterexample`); missing: the slice stays within the retained
-messages, or the cache is not stale -/
-theorem getLast_refines_partial {count : Nat} (h : p.Inv cfg) (hc : 0 < count)
-    (hlo : p.firstStart ≤ p.next - min count p.next ∨ ∀ c, p.cache = some c → c <:+ p.msgs) :
+theorem getLast_refines {count : Nat} (h : p.Inv cfg) (hc : 0 < count) :
     p.getLast count = (abs p).pollLast count :=
-  Part.getLast_eq_gen (segReadSpec cfg) h hc hlo
+  Part.getLast_eq (segReadSpec cfg) h hc
 
-/-- without a cache `getLast` is right unconditionally -/
-theorem getLast_refines_of_no_cache {count : Nat} (h : p.Inv cfg) (hc : 0 < count)
-    (hcache : p.cache = none) : p.getLast count = (abs p).pollLast count :=
-  Part.getLast_eq_of_no_cache (segReadSpec cfg) h hc hcache
-
-/-- full statement `p.Inv cfg → 0 < count → p.getNext grp cid count = (abs p).pollNext grp cid count`
-is false after retention; missing: the stored offset + 1 (or 0 if none) is not below the first
-retained offset.  `offsBound` is not needed: the model's shortcut `o = cur → []` agrees with the spec. -/
-theorem getNext_refines_partial {grp : Bool} {cid count : Nat} (h : p.Inv cfg) (hc : 0 < count)
-    (hlo : match lookup (if grp then p.grpOffs else p.consOffs) cid with
-           | none => p.firstStart = 0 | some o => p.firstStart ≤ o + 1) :
+/-- `offsBound` is not needed: the model's shortcut `o = cur → []` agrees with the spec. -/
+theorem getNext_refines {grp : Bool} {cid count : Nat} (h : p.Inv cfg) (hc : 0 < count) :
     p.getNext grp cid count = (abs p).pollNext grp cid count :=
-  Part.getNext_eq (segReadSpec cfg) h hc hlo
+  Part.getNext_eq (segReadSpec cfg) h hc
 
 /-- full statement `p.Inv cfg → 0 < count → p.getByTimestamp ts count = (abs p).pollTimestamp ts count`
 is false for a segment whose log file reaches 4 GiB (`getByTimestamp_counterexample`): the model reads
@@ -226,80 +197,69 @@ index cache and dedup on; the second append carries a duplicate id), then size-b
 invariant is *decidable* (`Lemmas/Decide.lean`), so it is checked on every state by evaluation, and
 independently derived through the theorems. -/
 
-def exCfg : Cfg := { reqToSave := 2, segSize := 100, cacheOn := true, idxCacheOn := true, dedupOn := true }
-def exIn (i : Nat) : InMsg := { id := i, size := 20, tag := i }
-def exGet (e : Except Err Part) : Part := match e with | .ok p => p | .error _ => Part.create exCfg none 0
+def rxCfg : Cfg := { reqToSave := 2, segSize := 100, cacheOn := true, idxCacheOn := true, dedupOn := true }
+def rxIn (i : Nat) : InMsg := { id := i, size := 20, tag := i }
+def rxGet (e : Except Err Part) : Part := match e with | .ok p => p | .error _ => Part.create rxCfg none 0
 
-def ex0 : Part := Part.create exCfg none 0
-def ex1 : Part := exGet (ex0.append exCfg 1 [exIn 1])                    -- buffered only
-def ex2 : Part := exGet (ex1.append exCfg 2 [exIn 2, exIn 1, exIn 3])    -- duplicate dropped, persisted
-def ex3 : Part := exGet (ex2.append exCfg 3 [exIn 4, exIn 5])            -- segment full: closed
-def ex4 : Part := exGet (ex3.append exCfg 4 [exIn 6])                    -- rolled over to segment 2
-def ex5 : Part := ex4.deleteOldest exCfg 5                               -- first segment deleted, cache stale
+def rx0 : Part := Part.create rxCfg none 0
+def rx1 : Part := rxGet (rx0.append rxCfg 1 [rxIn 1])                    -- buffered only
+def rx2 : Part := rxGet (rx1.append rxCfg 2 [rxIn 2, rxIn 1, rxIn 3])    -- duplicate dropped, persisted
+def rx3 : Part := rxGet (rx2.append rxCfg 3 [rxIn 4, rxIn 5])            -- segment full: closed
+def rx4 : Part := rxGet (rx3.append rxCfg 4 [rxIn 6])                    -- rolled over to segment 2
+def rx5 : Part := rx4.deleteOldest rxCfg 5                               -- first segment deleted, cache stale
 
-example : ex0.append exCfg 1 [exIn 1] = .ok ex1 := rfl
-example : ex1.append exCfg 2 [exIn 2, exIn 1, exIn 3] = .ok ex2 := rfl
-example : ex2.append exCfg 3 [exIn 4, exIn 5] = .ok ex3 := rfl
-example : ex3.append exCfg 4 [exIn 6] = .ok ex4 := rfl
-example : ex0.Inv exCfg := by decide
-example : ex1.Inv exCfg := by decide
-example : ex2.Inv exCfg := by decide
-example : ex3.Inv exCfg := by decide
-example : ex4.Inv exCfg := by decide
-example : ex5.Inv exCfg := by decide
-example : ex4.msgs.map (·.off) = [0, 1, 2, 3, 4, 5] := by decide
-example : ex4.segs.map (fun s => (s.start, s.closed, s.log.length, s.accMsgs.length)) =
+example : rx0.append rxCfg 1 [rxIn 1] = .ok rx1 := rfl
+example : rx1.append rxCfg 2 [rxIn 2, rxIn 1, rxIn 3] = .ok rx2 := rfl
+example : rx2.append rxCfg 3 [rxIn 4, rxIn 5] = .ok rx3 := rfl
+example : rx3.append rxCfg 4 [rxIn 6] = .ok rx4 := rfl
+example : rx0.Inv rxCfg := by decide
+example : rx1.Inv rxCfg := by decide
+example : rx2.Inv rxCfg := by decide
+example : rx3.Inv rxCfg := by decide
+example : rx4.Inv rxCfg := by decide
+example : rx5.Inv rxCfg := by decide
+example : rx4.msgs.map (·.off) = [0, 1, 2, 3, 4, 5] := by decide
+example : rx4.segs.map (fun s => (s.start, s.closed, s.log.length, s.accMsgs.length)) =
     [(0, true, 2, 0), (5, false, 0, 1)] := by decide
-example : ex5.msgs.map (·.off) = [5] ∧ ex5.cache.map (·.map (·.off)) = some [0, 1, 2, 3, 4, 5] := by decide
+example : rx5.msgs.map (·.off) = [5] ∧ rx5.cache.map (·.map (·.off)) = some [0, 1, 2, 3, 4, 5] := by decide
 
 /-- the same through the theorems: the invariant holds after create + two appends -/
-example : ∃ p1 p2, ex0.append exCfg 1 [exIn 1] = .ok p1 ∧
-    p1.append exCfg 2 [exIn 2, exIn 1, exIn 3] = .ok p2 ∧ p2.Inv exCfg ∧
-    abs p2 = ((SPart.create exCfg none).append 1 [exIn 1]).append 2 [exIn 2, exIn 1, exIn 3] := by
-  have h0 : ex0.Inv exCfg := create_inv none 0 (by decide)
-  obtain ⟨p1, e1, h1, a1⟩ := append_refines (now := 1) (msgs := [exIn 1]) h0 (by decide) (by decide)
-  have hp1 : p1 = ex1 := by
-    have : (.ok p1 : Except Err Part) = .ok ex1 := e1.symm.trans rfl
+example : ∃ p1 p2, rx0.append rxCfg 1 [rxIn 1] = .ok p1 ∧
+    p1.append rxCfg 2 [rxIn 2, rxIn 1, rxIn 3] = .ok p2 ∧ p2.Inv rxCfg ∧
+    abs p2 = ((SPart.create rxCfg none).append 1 [rxIn 1]).append 2 [rxIn 2, rxIn 1, rxIn 3] := by
+  have h0 : rx0.Inv rxCfg := create_inv none 0 (by decide)
+  obtain ⟨p1, e1, h1, a1⟩ := append_refines (now := 1) (msgs := [rxIn 1]) h0 (by decide) (by decide)
+  have hp1 : p1 = rx1 := by
+    have : (.ok p1 : Except Err Part) = .ok rx1 := e1.symm.trans rfl
     cases this; rfl
-  obtain ⟨p2, e2, h2, a2⟩ := append_refines (now := 2) (msgs := [exIn 2, exIn 1, exIn 3]) h1 (by decide)
+  obtain ⟨p2, e2, h2, a2⟩ := append_refines (now := 2) (msgs := [rxIn 2, rxIn 1, rxIn 3]) h1 (by decide)
     (by subst hp1; decide)
   exact ⟨p1, p2, e1, e2, h2, by
-    rw [a2, a1, show abs ex0 = SPart.create exCfg none from create_abs _ _ _]⟩
+    rw [a2, a1, show abs rx0 = SPart.create rxCfg none from create_abs _ _ _]⟩
 
-/-- `getByOffset_refines` without `firstStart ≤ off` is false: after retention deleted offsets 0–4,
-polling from offset 0 returns the deleted message 0 from the stale cache (and nothing at all when the
-cache is off, see `getFirst_counterexample`), while the spec returns the first retained message
-(offset 5). -/
-theorem getByOffset_counterexample :
-    ∃ (cfg : Cfg) (p : Part) (off count : Nat), p.Inv cfg ∧ 0 < count ∧
-      p.getByOffset off count ≠ (abs p).pollOffset off count :=
-  ⟨exCfg, ex5, 0, 1, by decide, by decide, by decide⟩
+/-! Regression examples for the defect found with the first version of the model (fixed in /repo and
+in `Part.getByOffset`): after retention deleted offsets 0–4 (`rx5`: the cache still holds them), a
+poll from offset 0 used to return the deleted message 0 from the stale cache (or nothing when the cache
+is off), `getLast 3` used to return the deleted messages 3, 4.  Now all answers start at the earliest
+retained message. -/
 
-example : (ex5.getByOffset 0 1).map (·.off) = [0] ∧ ((abs ex5).pollOffset 0 1).map (·.off) = [5] := by
+example : (rx5.getByOffset 0 1).map (·.off) = [5] ∧ ((abs rx5).pollOffset 0 1).map (·.off) = [5] := by
   decide
+example : rx5.getByOffset 0 1 = (abs rx5).pollOffset 0 1 := getByOffset_refines (cfg := rxCfg) (by decide) (by decide)
+example : (rx5.getLast 3).map (·.off) = [5] ∧ ((abs rx5).pollLast 3).map (·.off) = [5] := by decide
+example : (rx5.getFirst 2).map (·.off) = [5] := by decide
 
-/-- the same without a cache -/
-def exCfgNoCache : Cfg := { exCfg with cacheOn := false }
-def ex5' : Part :=
-  let get (e : Except Err Part) : Part := match e with | .ok p => p | .error _ => Part.create exCfgNoCache none 0
-  let q := get ((Part.create exCfgNoCache none 0).append exCfgNoCache 1 [exIn 1, exIn 2, exIn 3, exIn 4])
-  let q := get (q.append exCfgNoCache 2 [exIn 5])
-  q.deleteOldest exCfgNoCache 3
+/-- the same history without a cache -/
+def rxCfgNoCache : Cfg := { rxCfg with cacheOn := false }
+def rx5' : Part :=
+  let get (e : Except Err Part) : Part := match e with | .ok p => p | .error _ => Part.create rxCfgNoCache none 0
+  let q := get ((Part.create rxCfgNoCache none 0).append rxCfgNoCache 1 [rxIn 1, rxIn 2, rxIn 3, rxIn 4])
+  let q := get (q.append rxCfgNoCache 2 [rxIn 5])
+  q.deleteOldest rxCfgNoCache 3
 
-theorem getFirst_counterexample :
-    ∃ (cfg : Cfg) (p : Part) (count : Nat), p.Inv cfg ∧ p.cache = none ∧ 0 < count ∧
-      p.getFirst count ≠ (abs p).pollFirst count :=
-  ⟨exCfgNoCache, ex5', 1, by decide, by decide, by decide, by decide⟩
-
-example : ex5'.getFirst 1 = [] ∧ ((abs ex5').pollFirst 1).map (·.off) = [4] := by decide
-
-/-- `getLast_refines` is false with a stale cache: deleted messages are served from the cache -/
-theorem getLast_counterexample :
-    ∃ (cfg : Cfg) (p : Part) (count : Nat), p.Inv cfg ∧ 0 < count ∧
-      p.getLast count ≠ (abs p).pollLast count :=
-  ⟨exCfg, ex5, 3, by decide, by decide, by decide⟩
-
-example : (ex5.getLast 3).map (·.off) = [3, 4, 5] ∧ ((abs ex5).pollLast 3).map (·.off) = [5] := by decide
+example : rx5'.Inv rxCfgNoCache ∧ rx5'.cache = none ∧ rx5'.firstStart = 4 := by decide
+example : (rx5'.getFirst 1).map (·.off) = [4] ∧ ((abs rx5').pollFirst 1).map (·.off) = [4] := by decide
+example : (rx5'.getByOffset 2 5).map (·.off) = [4] := by decide
 
 /-- `getByTimestamp_refines` without the 4 GiB bound is false -/
 theorem getByTimestamp_counterexample :
